@@ -32,11 +32,12 @@ Section Finish.
 
   Lemma finish :
     let es := sel_entries V x nix m in
-    match (match build_shape nix false alen with
+    let oshape := build_shape nix false alen in
+    match (match oshape with
            | [] => if last_is_ellipsis ix
                    then Ok (GArr (mkCOO [] (map fst es) (map snd es) (c_fill x)))
                    else match es with (_, v) :: _ => Ok (GScalar v) | [] => Ok (GScalar (c_fill x)) end
-           | oshape => Ok (GArr (coo_make flag oshape es (c_fill x)))
+           | _ => Ok (GArr (coo_make flag oshape es (c_fill x)))
            end) with
     | Ok (GArr y) => c_shape y = out_shape rs /\ c_fill y = c_fill x /\ canonical V y
                      /\ forall j, in_range (out_shape rs) j -> den y j = den x (src_of rs j)
@@ -315,6 +316,14 @@ Qed.
 Lemma lex_lt_zeros k a a' (u v : idx) : a < a' -> lex_lt (repeat 0 k ++ a :: u) (repeat 0 k ++ a' :: v).
 Proof. intros H. induction k as [|k IH]; simpl; [left; exact H|right; split; [reflexivity|exact IH]]. Qed.
 
+Lemma facing_dim_unique (sh1 sh2 t1 t2 : shape) d d' :
+  t1 ++ d' :: t2 = sh1 ++ d :: sh2 -> length t1 = length sh1 -> d' = d.
+Proof.
+  revert sh1. induction t1 as [|a t1 IH]; intros [|b sh1] H Hl; try discriminate.
+  - inversion H. reflexivity.
+  - simpl in Hl. inversion H. eapply IH; eauto.
+Qed.
+
 Section GetitemArr.
   Variable V : Type.
 
@@ -340,7 +349,7 @@ Section GetitemArr.
     assert (Hwf : nwf nix sh) by (apply norm_all_nwf; auto; eapply expand_nzs; eauto).
     assert (Hn1 : n_arr nix = 1%nat).
     { pose proof (n_arr_norm ex sh Hf) as H. fold nix in H. rewrite (expand_count_arr _ _ _ E) in H.
-      unfold one_array in Hone. apply Z.eqb_eq in Hone. lia. }
+      unfold one_array in Hone. apply Z.eqb_eq in Hone. clear - H Hone. lia. }
     assert (Harr : (n_arr nix <= 1)%nat) by (rewrite Hn1; constructor).
     destruct (one_arr_split nix Hn1) as [pre [l [post [Enix [Hpre Hpost]]]]].
     rewrite Hr. cbn [bind]. rewrite Enix, (broadcast_one pre l post Hpre Hpost), <- Enix. cbn [bind].
@@ -378,10 +387,7 @@ Section GetitemArr.
         assert (length u1 = length sh1) by (rewrite <- Hlen1; symmetry; apply nwf_length; assumption).
         assert (length t1 = length sh1).
         { pose proof (nwf_filter pre t1 Ht1) as Hq. fold fpre in Hq. rewrite <- Hlen1. symmetry. apply nwf_length; assumption. }
-        assert (Ed : d' = d).
-        { rewrite Esh in Et. apply (f_equal (fun s => nth (length sh1) s 0)) in Et.
-          rewrite app_nth2, Nat.sub_diag in Et by lia. rewrite app_nth2 in Et by lia.
-          replace (length sh1 - length t1)%nat with 0%nat in Et by lia. simpl in Et. auto. }
+        assert (Ed : d' = d) by (rewrite Esh in Et; eapply facing_dim_unique; eauto).
         subst d'. exact Hv. }
       split; [exact Hwv|]. split; [rewrite no_arr_app; cbn [no_arr forallb is_narr negb]; fold (no_arr post); rewrite Hpre, Hpost; reflexivity|].
       rewrite (prune_indices_eq _ sh Hwv), filter_not_none_app. cbn [filter not_none is_nnone negb]. fold fpre fpost.
@@ -407,8 +413,8 @@ Section GetitemArr.
     assert (Hmm : forall k, (k < length l)%nat -> forall t,
                matches nix t (Z.of_nat k) = matches (pre ++ NInt (nth k l 0) :: post) t 0).
     { intros k Hk t. rewrite Enix, matches_subst_arr, zat_of_nat.
-      destruct (Z.leb_spec 0 (Z.of_nat k)); [|lia]. destruct (Z.ltb_spec (Z.of_nat k) (Z.of_nat (length l))); [|lia].
-      cbn [andb]. apply matches_no_arr_a. destruct (Hcall k Hk) as [_ Hv]. destruct (Hsub _ Hv) as [_ [Hna _]]. exact Hna. }
+      rewrite (proj2 (Z.leb_le 0 (Z.of_nat k)) (Nat2Z.is_nonneg k)).
+      rewrite (proj2 (Z.ltb_lt _ _) (inj_lt _ _ Hk)). cbn [andb]. apply matches_no_arr_a. destruct (Hcall k Hk) as [_ Hv]. destruct (Hsub _ Hv) as [_ [Hna _]]. exact Hna. }
     assert (Hm_mem : forall p a, In (p, a) m <->
                (p < length pts)%nat /\ matches nix (pt pts p) a = true /\ (n_arr nix = 0%nat -> a = 0)).
     { intros p a. rewrite Hm_eq, in_flat_map. split.
@@ -418,18 +424,18 @@ Section GetitemArr.
         split; [exact Hp|]. split; [rewrite (Hmm k Hk); exact Hma|]. intros H0. rewrite Hn1 in H0. discriminate.
       - intros [Hp [Hma _]]. pose proof Hma as Hma'. rewrite Enix, matches_subst_arr in Hma'.
         apply andb_true_iff in Hma'. destruct Hma' as [Hb _]. apply andb_true_iff in Hb. destruct Hb as [Hb1 Hb2].
-        exists (Z.to_nat a). assert (Hk : (Z.to_nat a < length l)%nat) by lia.
-        split; [apply in_seq0; exact Hk|]. apply in_map_iff. exists p. split; [f_equal; lia|].
+        exists (Z.to_nat a). assert (Hk : (Z.to_nat a < length l)%nat) by (clear - Hb1 Hb2; lia).
+        split; [apply in_seq0; exact Hk|]. apply in_map_iff. exists p. split; [f_equal; clear - Hb1; lia|].
         destruct (Hcall _ Hk) as [_ Hv]. destruct (Hsub _ Hv) as [Hwv [Hnav _]].
         destruct (basic_mask V x _ Hcan Hwv Hnav (kf (Z.to_nat a))) as [_ [Hmem _]]. apply Hmem.
-        split; [exact Hp|]. rewrite <- (Hmm _ Hk). rewrite Z2Nat.id by lia. exact Hma. }
+        split; [exact Hp|]. rewrite <- (Hmm _ Hk). rewrite Z2Nat.id by (clear - Hb1; lia). exact Hma. }
     assert (Hm_nodup : NoDup m).
     { rewrite Hm_eq. apply NoDup_flat_map_keys; [apply seq_NoDup| |].
       - intros k Hk. apply in_seq0 in Hk. destruct (Hcall k Hk) as [_ Hv]. destruct (Hsub _ Hv) as [Hwv [Hnav _]].
         destruct (basic_mask V x _ Hcan Hwv Hnav (kf k)) as [Hnd _].
         apply NoDup_map_inj_in; [exact Hnd|]. intros a b _ _ H. inversion H. reflexivity.
       - intros k k' [p a] _ _ H1 H2. apply in_map_iff in H1, H2. destruct H1 as [q [Hq _]], H2 as [q' [Hq' _]].
-        inversion Hq. inversion Hq'. lia. }
+        inversion Hq as [[E1 E2]]. inversion Hq' as [[E3 E4]]. apply Nat2Z.inj. congruence. }
     assert (Halen : forall l', In (NArr l') nix -> Z.of_nat (length l) = Z.of_nat (length l')).
     { intros l' Hin. rewrite Enix in Hin. apply in_app_iff in Hin. destruct Hin as [Hin|[Hin|Hin]].
       - exfalso. unfold no_arr in Hpre. rewrite forallb_forall in Hpre. specialize (Hpre _ Hin). discriminate.
@@ -439,7 +445,8 @@ Section GetitemArr.
     assert (Hflag : sorted_flag nix (Some (mkAdv (VInt (Z.of_nat (length fpre))) (Z.of_nat (length l)))) = true ->
                     StronglySorted lex_lt (map fst (sel_entries V x nix m))).
     { rewrite sorted_flag_adv. intros Hfl. apply andb_true_iff in Hfl. destruct Hfl as [Hq0 Hpos].
-      assert (Hfp : fpre = []) by (destruct fpre; [reflexivity|simpl in Hq0; lia]).
+      assert (Hfp : fpre = []).
+      { apply Z.eqb_eq in Hq0. clear - Hq0. destruct fpre; [reflexivity|simpl in Hq0; lia]. }
       unfold sel_entries. rewrite Hm_eq, map_map. cbn [sel_entry fst snd]. rewrite flat_map_concat_map, concat_map, map_map, <- flat_map_concat_map.
       apply (SS_flat_map_keys lt); [apply SS_seq| |].
       - intros k Hk. apply in_seq0 in Hk. rewrite map_map. cbn [fst snd].
@@ -447,14 +454,37 @@ Section GetitemArr.
         destruct (basic_mask V x _ Hcan Hwv Hnav (kf k)) as [_ [_ Heq]].
         assert (Hposv : forallb nonneg_step (pre ++ NInt (nth k l 0) :: post) = true).
         { rewrite Enix in Hpos. rewrite forallb_app in Hpos |- *. cbn [forallb nonneg_step] in Hpos |- *. exact Hpos. }
-        rewrite (Heq Hposv). apply SS_map_lt; [apply SS_filter, SS_seq|]. intros p q Hp Hq Hpq.
+        specialize (Heq Hposv). fold pts sh in Heq. rewrite Heq.
+        apply SS_map_lt; [apply SS_filter, SS_seq|]. intros p q Hp Hq Hpq.
         apply filter_In in Hp, Hq. destruct Hp as [Hp Hmp], Hq as [Hq Hmq]. apply in_seq0 in Hp, Hq.
         rewrite <- (Hmm k Hk) in Hmp, Hmq.
         apply (build_mono nix sh false _ _ (Z.of_nat k) Hwf Hpos Hmp Hmq). apply pts_lex; assumption.
       - intros k k' u v Hkk Hu Hv. rewrite map_map in Hu, Hv. apply in_map_iff in Hu, Hv.
         destruct Hu as [p [<- _]], Hv as [q [<- _]]. cbn [fst snd]. rewrite Enix.
-        rewrite !build_first by (fold fpre; exact Hfp). apply lex_lt_zeros. lia. }
-    rewrite (sel_entries_eq V x nix m).
+        rewrite !build_first by (fold fpre; exact Hfp). apply lex_lt_zeros. clear - Hkk. lia. }
     exact (finish V x nix ix Hcan Hwf Harr m Hm_nodup Hm_mem _ Halen _ Hflag).
   Qed.
 End GetitemArr.
+
+(* the statement without the D29 clause is false of the code: NumPy accepts x[np.array([], dtype=bool)] on a
+   non-empty axis (result of length 0), check_index raises IndexError *)
+Theorem coo_getitem_one_array_refuted_proof :
+  exists (x : coo Z) (ix : index),
+    canonical Z x /\ shape_okb (c_shape x) = true /\ no_zero_step ix = true /\ one_array ix = true
+    /\ (exists sh' g, np_index (c_shape x) ix = Ok (sh', g))
+    /\ forall kf, getitem kf x ix = Raise IndexError.
+Proof.
+  exists (mkCOO [1] [[0]] [5] 0), [IBArr []].
+  split; [apply canonicalb_spec; reflexivity|]. repeat split.
+  eexists. eexists. vm_compute. reflexivity.
+Qed.
+
+(* non-vacuity: x[:, [2, -3, 2]] on a 2x3 array with fill 7 (repeated, unsorted, negative entries) *)
+Example getitem_one_array_nonvacuous :
+  let x := mkCOO [2; 3] [[0; 1]; [1; 0]; [1; 2]] [10; 20; 30] 7 in
+  let ix := [ISlice None None None; IArr [2; -3; 2]] in
+  canonical Z x /\ shape_okb (c_shape x) = true /\ no_zero_step ix = true /\ one_array ix = true
+  /\ d29_clause (c_shape x) ix = true
+  /\ getitem (fun _ => 1%nat) x ix
+     = Ok (GArr (mkCOO [2; 3] [[1; 0]; [1; 1]; [1; 2]] [30; 20; 30] 7)).
+Proof. cbv zeta. split; [apply canonicalb_spec; reflexivity|]. repeat split. Qed.
